@@ -15,7 +15,7 @@ CONSTANTS
   MaxApi = 4
   WithGC = FALSE
   AtomicPeers = FALSE
-  SignedWant = FALSE
+  SignedWant = TRUE
   Serialized = FALSE
   DirectAPI = TRUE
 CHECK_DEADLOCK FALSE
